@@ -8,15 +8,43 @@ HERE = os.path.dirname(os.path.dirname(os.path.abspath(__file__)))
 
 SX = "bounded symbolic execution of the real library code (CrossHair engine + z3), path tree explored to exhaustion, counterexamples replayed concretely"
 
+NOTE = ("Trusts CrossHair's opcode-level model of CPython and z3; scaffolding (class/instance construction where it is not the "
+        "subject) is native; the reference oracle is written from the documentation; bounds and tolerances: evidence.coverage.bounds "
+        "and assumptions.")
+
+
+def sx(extra, text, ref):
+    return (SX + "; " + extra, text, NOTE, ref)
+
+
 CHECKS = {
-    # id: (technique, level text, level note, design ref)
-    "C01": (
-        SX + "; differential against a reference transition-selection oracle",
-        "Every path of send() through the real engines is explored for the bounded machine families with symbolic guard "
-        "values and validator faults; the solver shows no feasible path is left (exhaustive within the bounds in the evidence).",
-        "Trusts CrossHair's opcode-level model of CPython and z3; machine construction is native; the oracle (first "
-        "candidate without a failing guard, all guards read) is the reading of the statement; bounds: see evidence.bounds.",
+    "C01": sx(
+        "differential against a reference transition-selection oracle",
+        "Every path of send() through the real engines is explored for the bounded machine families with symbolic guard values and "
+        "validator faults; the solver shows no feasible path is left (exhaustive within the bounds in the evidence).",
         "DESIGN.md section 4 C01",
+    ),
+    "C02": sx(
+        "observed callback log judged by a documentation-derived trace acceptor",
+        "All populations of the callback groups (bounded), providers, transition kinds and engines are explored symbolically; order, exactly-once, "
+        "injected state view and event scoping are checked on every path.",
+        "DESIGN.md section 4 C02",
+    ),
+    "C03": sx(
+        "nested-send placement enumerated by the solver, trace acceptor with queue semantics, stack depth compared along a symbolic-length chain",
+        "Every placement of up to 2 nested sends at any callback invocation (bounded template), rtc on/off, both engines, with symbolic results.",
+        "DESIGN.md section 4 C03",
+    ),
+    "C04": sx(
+        "fault position is a solver variable; trace acceptor + follow-up calls + white-box queue/lock frame",
+        "Every crash point of the bounded scenarios (raise at any callback invocation, refused queued event, repeated failures) is explored; the "
+        "state rule, exception propagation, dropped queue and usability are checked on every path.",
+        "DESIGN.md section 4 C04",
+    ),
+    "C14": sx(
+        "result rule judged on symbolic return values incl. awkward kinds",
+        "All bounded populations of before/on callbacks x transition kinds x engines with symbolic return values; 0->None, 1->unwrapped, else list.",
+        "DESIGN.md section 4 C14",
     ),
 }
 
